@@ -2,7 +2,7 @@
    input, and a few facts about the 304 decision. *)
 From Coq Require Import List NArith ZArith Bool Lia.
 Import ListNotations.
-From TV Require Import Lib.Obs C27.Model C27.Spec C27.Run C27.Proofs1 C27.Proofs2 C27.Proofs3 C27.Proofs4.
+From TV Require Import Lib.Obs C27.Model C27.Spec C27.Run C27.Proofs1 C27.Proofs2 C27.Proofs3 C27.Proofs4 C27.Proofs7.
 
 Local Open Scope N_scope.
 
@@ -65,16 +65,61 @@ Proof.
   - reflexivity.
 Qed.
 
+Lemma promised_body_shape head content r :
+  response_shape head content r ->
+  promised_body head content (r_status r) (r_content_range r) = r_body r.
+Proof.
+  intros [-> | [(a & b & Hab & Hb & Hp & ->) | [-> | ->]]]; unfold promised_body;
+    cbn [r_status r_content_range r_body whole_response partial_response
+         unsatisfiable_response not_modified_response]; destruct head; try reflexivity.
+  change (206 =? 200)%Z with false. change (206 =? 206)%Z with true. cbn iota.
+  rewrite read_content_range_text. apply N.ltb_lt in Hb. rewrite Hb. reflexivity.
+Qed.
+
+Lemma obs_ints_map (cs : list (list N)) :
+  obs_ints (map (fun c => OInt (Z.of_nat (length c))) cs) = Some (map (fun c => Z.of_nat (length c)) cs).
+Proof. induction cs as [|c cs IH]; [reflexivity|]. cbn [map obs_ints]. rewrite IH. reflexivity. Qed.
+
+Lemma sum_lengths (cs : list (list N)) :
+  fold_right Z.add 0%Z (map (fun c => Z.of_nat (length c)) cs) = Z.of_nat (length (concat cs)).
+Proof.
+  induction cs as [|c cs IH]; [reflexivity|].
+  cbn [map fold_right concat]. rewrite IH, app_length. lia.
+Qed.
+
+Lemma check_chunks_ok cs :
+  Forall (chunk_ok chunk_max) cs ->
+  check_chunks (concat cs) (map (fun c => Z.of_nat (length c)) cs) (Z.of_N (poly_hash (concat cs))) = true.
+Proof.
+  intro H. unfold check_chunks. rewrite sum_lengths, !Z.eqb_refl, !andb_true_r.
+  induction H as [|c cs [Hne Hle] _ IH]; [reflexivity|].
+  cbn [map forallb]. rewrite IH, andb_true_r.
+  apply andb_true_iff. split; [apply Z.ltb_lt|apply Z.leb_le; exact Hle].
+  destruct c; [congruence|]. cbn [length]. lia.
+Qed.
+
 Lemma check_case_run_case c : check_case c (run_case c) = true.
 Proof.
-  destruct c as [h|q]; [reflexivity|].
-  cbn [run_case check_case]. destruct (static_get_shape q) as (r & -> & S).
-  cbn [obs_of_outcome].
-  assert (H1 : match ot (r_content_range r) with OBytes t => Some (Some t) | ONone => Some None | _ => None end
-               = Some (r_content_range r)) by (destruct (r_content_range r); reflexivity).
-  assert (H2 : match oz (r_content_length r) with OInt z => Some (Some z) | ONone => Some None | _ => None end
-               = Some (r_content_length r)) by (destruct (r_content_length r); reflexivity).
-  rewrite H1, H2. apply check_response_shape. exact S.
+  destruct c as [h|q|s e t|head n a b range]; try reflexivity.
+  - cbn [run_case check_case]. destruct (static_get_shape q) as (r & -> & S).
+    cbn [obs_of_outcome].
+    assert (H1 : match ot (r_content_range r) with OBytes t => Some (Some t) | ONone => Some None | _ => None end
+                 = Some (r_content_range r)) by (destruct (r_content_range r); reflexivity).
+    assert (H2 : match oz (r_content_length r) with OInt z => Some (Some z) | ONone => Some None | _ => None end
+                 = Some (r_content_length r)) by (destruct (r_content_length r); reflexivity).
+    rewrite H1, H2. apply check_response_shape. exact S.
+  - cbn [run_case check_case]. set (q := big_request head n a b range).
+    destruct (static_get_chunks_total chunk_max q ltac:(reflexivity)) as (r & cs & E1 & E2 & E3 & E4).
+    destruct (static_get_shape q) as (r' & E1' & S). rewrite E1 in E1'. inversion E1'; subst r'.
+    rewrite E1, E2. cbn [obs_of_big].
+    assert (H1 : match ot (r_content_range r) with OBytes t => Some (Some t) | ONone => Some None | _ => None end
+                 = Some (r_content_range r)) by (destruct (r_content_range r); reflexivity).
+    assert (H2 : match oz (r_content_length r) with OInt z => Some (Some z) | ONone => Some None | _ => None end
+                 = Some (r_content_length r)) by (destruct (r_content_length r); reflexivity).
+    rewrite H1, H2, obs_ints_map.
+    change (q_head q) with head in S. change (q_content q) with (gen_content n a b) in S.
+    cbv zeta. rewrite (promised_body_shape _ _ _ S), (check_response_shape _ _ _ S).
+    rewrite <- E3. apply check_chunks_ok. exact E4.
 Qed.
 
 (* ---------- 304 ---------- *)
